@@ -40,9 +40,22 @@ Clause(c) ==
         \* a failed store must not leave WRONG data behind either
         ELSE IF c.optype = "store" /\ \E i \in 1..Len(c.targets) : ClassOf(c.targets[i]) = "Wrong"
            THEN "oracle:WrongAfterFailure"
+        \* a store that failed BEFORE its file was opened for writing (stat, mkdir, open)
+        \* has not legitimately touched the earlier content of that name
+        ELSE IF c.optype = "store" /\ c.outcome.st = "raised" /\ c.failkind \in {"stat", "mkdir", "open"}
+                /\ \E i \in 1..Len(c.targets) :
+                      c.targets[i].hasold /\ ClassOf(c.targets[i]) \notin {"Old", "Correct"}
+           THEN "oracle:OldDestroyedBeforeWrite"
         ELSE "ok")
   ELSE \* crash / torn
        (IF \E i \in 1..Len(c.targets) : ClassOf(c.targets[i]) = "Wrong" THEN "oracle:WrongAfterCrash"
+        \* gzip layer: the CRC/length trailer makes truncation detectable at the accessor
+        \* itself - the bytes it returns for a .gz chunk are the new ones, the old ones,
+        \* nothing at all (file created, nothing written yet), or an error
+        ELSE IF c.gzlayer /\ \E i \in 1..Len(c.targets) :
+                  LET t == c.targets[i] IN
+                  t.ast = "ok" /\ t.adata # t.new /\ t.adata # << >> /\ ~(t.hasold /\ t.adata = t.old)
+             THEN "oracle:TruncatedGzipReadSilently"
         ELSE IF ~OthersNotWrong(c) THEN "oracle:OthersWrongAfterCrash"
         ELSE "ok")
 
